@@ -12,12 +12,12 @@ conf = subprocess.run(["/verif/tools/confirm_seed.sh", wt, diff, demo, pkg, pat]
 # detection: run the property's check against the worktree without and with the patch applied
 subprocess.run(["git", "-C", wt, "checkout", "-q", "--", "."]); subprocess.run(["git", "-C", wt, "clean", "-fdq"])
 base = subprocess.run(["/verif/bin/hpcheck", "-repo", wt, "-verif", "/var/tmp/vtest", "-property", prop, "-tier", "quick"], capture_output=True, text=True)
-base_hits = set(re.sub(r"^\S+: ", "", l)[:160] for l in base.stdout.splitlines() if re.search(r"\[\w+ (violated|undecided)\]", l))
+base_hits = set(re.sub(r"^\S+: ", "", l)[:160] for l in base.stdout.splitlines() if re.search(r"\[[\w@]+ (violated|undecided)\]", l))
 base_commit = subprocess.run(["git", "-C", wt, "rev-parse", "--short", "HEAD"], capture_output=True, text=True).stdout.strip()
 subprocess.run(["git", "-C", wt, "apply", diff], check=True)
 out = subprocess.run(["/verif/bin/hpcheck", "-repo", wt, "-verif", "/var/tmp/vtest", "-property", prop, "-tier", "quick"], capture_output=True, text=True)
 subprocess.run(["git", "-C", wt, "checkout", "-q", "--", "."]); subprocess.run(["git", "-C", wt, "clean", "-fdq"])
-hits = [l for l in out.stdout.splitlines() if re.search(r"\[\w+ (violated|undecided)\]", l) and re.sub(r"^\S+: ", "", l)[:160] not in base_hits]
+hits = [l for l in out.stdout.splitlines() if re.search(r"\[[\w@]+ (violated|undecided)\]", l) and re.sub(r"^\S+: ", "", l)[:160] not in base_hits]
 meta = {
   "id": sid, "property": prop, "base_commit": base_commit,
   "needs_to_manifest": needs,
@@ -30,4 +30,4 @@ meta = {
   "reports_already_present_on_base": sorted(base_hits),
 }
 json.dump(meta, open(f"{d}/meta.json", "w"), indent=1)
-print(sid, "detected" if meta["detected"] else "MISSED", "(base had %d reports)" % len(base_hits), [re.search(r"\[(\w+) ", h).group(1) for h in hits])
+print(sid, "detected" if meta["detected"] else "MISSED", "(base had %d reports)" % len(base_hits), [re.search(r"\[([\w@]+) ", h).group(1) for h in hits])
